@@ -453,6 +453,10 @@ S4_MORE["C05"] += (" _distribution_factory on its executed body: for six spellin
 S4_MORE["C15"] += " write_settings_object_to_file: exactly one save() of the object given under the name given."
 S4_MORE["C20"] += (" summarize_spatial_statistics: the table holds the statistics handed in (mean, standard deviation, -1 / +1 values in the requested space; lognormal period row = the "
                   "reciprocals with the same log-standard deviation); any other distribution refused.")
+S4_MORE["C17"] = ("instrument_response.py under contract (contracts/instr.py; spectra and transfer functions opaque complex values): _domain_transform and "
+                 "_remove_instrument_response transform the series' own samples with the published FFT length (its own length when none is published), multiply by one transfer "
+                 "function, tell the inverse transform the same length, cut to the series' length and keep the time step, in a new series; an unknown transform is refused; "
+                 "_differentiate / _integrate call the transform of that name on the caller's series and settings. Psd.__init__ / Psd._check_input under contract.")
 for _k, _v in S4_MORE.items():
     S4[_k] = ((S4[_k][0] + " " + _v,) + tuple(S4[_k][1:])) if _k in S4 else (_v, None, None)
 for _pid, (_t, _n, _tech) in S4.items():
@@ -483,7 +487,7 @@ S4_ASSUME = {
  "C15": ["json / open opaque", "settings constructors with no arguments give default objects (their attribute lists: structural obligations)",
          "A-PYNUM: symbolic numbers are Python numbers (no .tolist(); a numpy scalar's tolist() returns the Python number of the same value - evaluated natively)",
          "A-DEEPCOPY: copy.deepcopy of numbers, strings, None, arrays, lists, tuples, dictionaries gives equal content in fresh storage at every level"],
- "C17": ["np.mean of the squared taper = TAPER_MEAN_SQUARE(length, width) > 0", "per-component stages of psd_preprocess (_remove_instrument_response, _differentiate) opaque functions of (content, transfer function / FFT length)"],
+ "C17": ["A-COMPLEX: complex spectra / transfer functions are opaque values with an identity; arithmetic on them is an uninterpreted function of operator and operands (routing only; the formulas of the transfer functions are evaluated natively)", "np.mean of the squared taper = TAPER_MEAN_SQUARE(length, width) > 0", "per-component stages of psd_preprocess (_remove_instrument_response, _differentiate) opaque functions of (content, transfer function / FFT length)"],
  "C18": ["json / open opaque"],
  "C19": ["hvsrpy.read / preprocess / process / write_hvsr_object_to_file opaque stages (their contracts: C07, C10/C17, C01..C05, C12)", "deepcopy preserves content", "pathlib.Path(fname).stem + '.csv' as an uninterpreted function of the file name",
          "A-POOL in cli(): Pool(n) / starmap(function, tasks, chunksize) recorded, not executed; os.cpu_count() >= 2 and --nproc >= 1 are preconditions (otherwise the command fails before any file is processed)",
